@@ -12,7 +12,7 @@ pub fn prop() -> Prop {
         rule: "streams of <=3 (thorough <=4) values over a 7-value core (incl. multi-line values and a multi-byte string) x 6 separator kinds (space, LF, CRLF, mixed run, touching, LF+indent), clean and with whitespace-delimited noise in one gap (7 tokens, three of them not valid UTF-8); deliveries: whole, 1-byte, greedy reads cut at EVERY set of <=2 offsets, Interrupted before every offset (singly and all at once), one file, FIFO with 3/7-byte writes; file partitions (file names not in sorted order; the same file twice): EVERY composition of the value sequence into 1..4 files and EVERY cut inside the text (a value cut by a file boundary); --only-objects-and-arrays on/off; plus 7 tokens (number, multi-byte string, literal, escapes, containers) placed so that they straddle byte 8192 and 16384 of the input at every split position, read byte by byte, from a file and in 1 KiB/4 KiB/8 KiB chunks; 300 and 1100 values one per line (LF, CRLF) and all on one line (indices, lines and columns beyond 255 / 65535) and spread over 10 files, one of them empty; non-trivial = >=2 values or a cut inside a value; distinct by construction; directory arguments: 6 layouts (two files, plain files around a directory, nested directories with an empty file, two directories, one file, noisy files) x --only-objects-and-arrays, checked per file because the order inside a directory is the file system's",
         explanation: "(a) every delivery must give the byte-identical observation; (b) out(f1..fn) = out(f1)...out(fn) with all per-file selectors; (c) the seven &-selectors are compared with a location model on the input text: &index ordinal of processed values, &index-in-file per file, &file-name the path, [start,end) as byte offsets must contain the value's span from the strict reference reader, consecutive ranges contiguous on clean streams, lines counted by LF only",
         assumptions: COMMON_ASSUMPTIONS.to_vec(),
-        guards: vec!["noise-that-is-not-valid-utf8", "directory-argument", "same-file-twice", "index-line-column-beyond-255", "token-straddles-a-buffer-boundary", "touching-values", "multi-line-value", "cut-inside-value", "greedy-chunking", "file-boundary-inside-value", "ooa-skips-scalar", "crlf", "fifo"],
+        guards: vec!["line-feed-inside-a-string", "noise-that-is-not-valid-utf8", "directory-argument", "same-file-twice", "index-line-column-beyond-255", "token-straddles-a-buffer-boundary", "touching-values", "multi-line-value", "cut-inside-value", "greedy-chunking", "file-boundary-inside-value", "ooa-skips-scalar", "crlf", "fifo"],
         budget_s: (100, 1800),
         single_worker: false,
         run,
@@ -314,8 +314,16 @@ fn run(ctx: &mut Ctx) {
                     _ => "true".to_string(),
                 };
                 let s = text.len();
-                text.push_str(&t);
-                vals.push((json::parse_str(&t), s, text.len()));
+                if i % 20 == 7 {
+                    // a string that holds a raw line feed (jawk reads it; every line feed counts as a line)
+                    let raw = format!("\"r{i}\nq\"");
+                    text.push_str(&raw);
+                    vals.push((V::s(&format!("r{i}\nq")), s, text.len()));
+                    ctx.guard("line-feed-inside-a-string");
+                } else {
+                    text.push_str(&t);
+                    vals.push((json::parse_str(&t), s, text.len()));
+                }
                 text.push_str(sep);
             }
             let st = Stream { text: text.clone().into_bytes(), vals, clean: true, desc: format!("{total} values {layout}") };
